@@ -64,7 +64,7 @@ ZOO_PARTS = [1, 2, 3, 4]
 class Unit:
     """One (translation unit, configuration, dispatch path, flavour) to extract."""
 
-    def __init__(self, name, source, config, gcc_path=True, flavour="include", std="gnu++17", extra=(), patterns=False):
+    def __init__(self, name, source, config, gcc_path=True, flavour="include", std="gnu++17", extra=(), patterns=False, roots=None):
         self.name = name
         self.source = source
         self.config = config
@@ -73,6 +73,7 @@ class Unit:
         self.std = std
         self.extra = list(extra)
         self.patterns = patterns
+        self.roots = roots
 
     def flags(self):
         f = ["-std=" + self.std, "-w", "-I" + os.path.join(REPO, "include"), "-I" + os.path.join(REPO, "external")]
@@ -124,10 +125,10 @@ def tree_hash(include_tests=False):
         for dp, _, fns in os.walk(r):
             for fn in fns:
                 paths.append(os.path.join(dp, fn))
-    wit = os.path.join(VERIF, "witness")
-    for dp, _, fns in os.walk(wit):
-        for fn in fns:
-            paths.append(os.path.join(dp, fn))
+    for wit in (os.path.join(VERIF, "witness"), os.path.join(VERIF, "ref")):
+        for dp, _, fns in os.walk(wit):
+            for fn in fns:
+                paths.append(os.path.join(dp, fn))
     paths.append(HFX)
     h = _sha_files(paths).hexdigest()
     _tree_hash_cache[key] = h
@@ -156,7 +157,7 @@ def _run_one(u):
         return out, 0.0, True
     os.makedirs(os.path.dirname(out), exist_ok=True)
     tmp = out + ".tmp.%d" % os.getpid()
-    cmd = [HFX, "--out=" + tmp, "--roots=" + os.path.join(REPO, "include") + "," + os.path.join(REPO, "development")]
+    cmd = [HFX, "--out=" + tmp, "--roots=" + (u.roots or (os.path.join(REPO, "include") + "," + os.path.join(REPO, "development")))]
     if not u.patterns:
         cmd.append("--no-patterns")
     cmd += [u.source, "--"] + u.flags()
